@@ -60,7 +60,7 @@ func streamB(variant string) ([]byte, []string) {
 	case "conflict-q":
 		docs = append(docs, pkgh.CRDYAML("ex.org", "KW", "b"))
 		names = append(names, crdName("KW"))
-	case "rejected":
+	case "rejected", "rejected-existing":
 		docs = append(docs, pkgh.CRDYAML("ex.org", "KBad", "b"))
 		names = append(names, crdName("KBad"))
 	case "foreign":
@@ -274,6 +274,25 @@ func prepare(variant string) *prepared {
 		f.SetKind("CustomResourceDefinition")
 		f.SetName(crdName("KU"))
 		s.Seed(f)
+	case "rejected-existing":
+		// The object the API server rejects already exists (its update is
+		// what gets rejected).
+		f := &unstructured.Unstructured{}
+		f.SetAPIVersion("apiextensions.k8s.io/v1")
+		f.SetKind("CustomResourceDefinition")
+		f.SetName(crdName("KBad"))
+		s.Seed(f)
+	case "b-inactive-owner":
+		// Revision B was created inactive (manual activation) and reconciled:
+		// it is a plain owner of the objects it shares with A.
+		s.Mutate(pkgKeyP, func(u *unstructured.Unstructured) {
+			_ = unstructured.SetNestedField(u.Object, string(v1.ManualActivation), "spec", "revisionActivationPolicy")
+			_ = unstructured.SetNestedField(u.Object, repoP+":v2", "spec", "package")
+		})
+		for i := 0; i < 2; i++ {
+			xrh.Reconcile(mgr, types.NamespacedName{Name: "p"})
+			xrh.Reconcile(rr, types.NamespacedName{Name: xpkg.FriendlyID("p", pkgh.Digest("B"))})
+		}
 	}
 	if c := crds(s)[crdName("KX")]; c == nil {
 		panic(explore.HarnessError{Msg: fmt.Sprintf("preparation: revision A not established: %s err=%v", describe(s), prepErr)})
@@ -311,7 +330,7 @@ func body(r *explore.Run, rep *report.R, sc string, variant string, depth int) {
 	}
 	s.OnWrite = append(s.OnWrite, w.onWrite)
 
-	events := []string{"mgr", "rev-A", "rev-B", "src=v2", "src=v1", "gc", "delete-inactive-revisions"}
+	events := []string{"mgr", "rev-A", "rev-B", "src=v2", "src=v1", "gc", "delete-inactive-revisions", "toggle-manual-activation"}
 	var trail []string
 	established := map[string]bool{w.revName("A"): true} // revisions that completed an active reconcile
 	for step := 0; step < depth; step++ {
@@ -326,6 +345,15 @@ func body(r *explore.Run, rep *report.R, sc string, variant string, depth int) {
 		case "src=v1", "src=v2":
 			s.Mutate(pkgKeyP, func(u *unstructured.Unstructured) {
 				_ = unstructured.SetNestedField(u.Object, repoP+":"+strings.TrimPrefix(ev, "src="), "spec", "package")
+			})
+		case "toggle-manual-activation":
+			s.Mutate(pkgKeyP, func(u *unstructured.Unstructured) {
+				cur, _, _ := unstructured.NestedString(u.Object, "spec", "revisionActivationPolicy")
+				next := string(v1.ManualActivation)
+				if cur == next {
+					next = string(v1.AutomaticActivation)
+				}
+				_ = unstructured.SetNestedField(u.Object, next, "spec", "revisionActivationPolicy")
 			})
 		case "gc":
 			before := crds(s)
@@ -398,7 +426,7 @@ func body(r *explore.Run, rep *report.R, sc string, variant string, depth int) {
 			// its objects, it wrote none of them (unless an injected fault hit
 			// a real write half way, which no controller can avoid).
 			establishFailed := out.Err != nil && strings.Contains(out.Err.Error(), "cannot establish control of object")
-			if active && establishFailed && !faultOnRealWrite && len(realWrites) > 0 {
+			if establishFailed && !faultOnRealWrite && len(realWrites) > 0 {
 				r.Failf("E1/partial-establish/"+variant, "revision %s failed to establish its objects (err %v) yet performed %v", name, out.Err, realWrites)
 			}
 			want := []string{crdName("KX"), crdName("KY")}
@@ -494,7 +522,7 @@ func TestCheck(t *testing.T) {
 		[]string{"simkube", "go-containerregistry (real image construction)", "afero in-memory filesystem for the package cache"},
 	)
 	depth := 5
-	variants := []string{"upgrade", "conflict-q", "rejected", "foreign", "uncontrolled"}
+	variants := []string{"upgrade", "conflict-q", "rejected", "rejected-existing", "foreign", "uncontrolled", "b-inactive-owner"}
 	if report.Thorough() {
 		depth = 7
 	}
